@@ -155,7 +155,7 @@ def check_generated(case, shard, mon, rng):
     poi = cfg.poi_index
     # fixed mask: a nuisance fixed at a non-default value
     mask_kind = case["mask"]
-    if mask_kind == "nuisance" and cfg.npars > 2:
+    if mask_kind in ("nuisance", "both") and cfg.npars > 2:
         cand = [i for i in range(cfg.npars) if i != poi and not fixed[i]]
         i = cand[case["seed"] % len(cand)]
         fixed[i] = True
@@ -167,9 +167,9 @@ def check_generated(case, shard, mon, rng):
         # the fit must treat it as free (only the optimality oracles can see whether it did)
         shard.covered("masks", "model-fixed nuisance released by the caller's mask")
     poi_val = None
-    if mask_kind == "poi":
+    if mask_kind in ("poi", "both"):
         poi_val = case["poi_val"]
-        shard.covered("masks", f"POI fixed at {poi_val}")
+        shard.covered("masks", f"POI fixed at {poi_val}" + (" together with a fixed nuisance" if mask_kind == "both" else ""))
     grads = [False] + ([True] if pyhf.tensorlib.name != "numpy" else [])
     mon.context = {"spec": case["spec"], "mask": mask_kind, "poi_val": poi_val}
     # how far is the fixed-POI hypothesis from the data?  (largest per-bin tension at the initial nuisance values)
@@ -271,7 +271,7 @@ def check_generated(case, shard, mon, rng):
     nfree = sum(1 for f in fixed_eff if not f)
     xb = results[best_key][0]
     on_bound = any(abs(xb[i] - bounds[i][0]) < 1e-7 or abs(xb[i] - bounds[i][1]) < 1e-7 for i in range(len(xb)) if not fixed_eff[i])
-    if nfree >= 3 or on_bound or mask_kind == "nuisance":
+    if nfree >= 3 or on_bound or mask_kind in ("nuisance", "both"):
         shard.nontrivial(c06.counting_arrays(case["spec"]) if case.get("kind") == "counting" else [len(c["samples"][0]["data"]) for c in case["spec"]["channels"]], case["data"], mask_kind, poi_val, pyhf.tensorlib.name, tuple(case["optimizers"]))
     if on_bound:
         shard.covered("optimum", "on a bound")
@@ -330,6 +330,14 @@ def check_closed_form(case, shard, mon, rng):
                 if fun - ref_fun > MARGIN[opt]:
                     name = f"C05/closed-form-missed:{opt}"
                     xs = [float(v) for v in to_np(x)]
+                    if opt == "scipy" and kind == "counting":
+                        start_exp = [init[cfg.poi_index] * s_ + b_ for s_, b_ in zip(ss, bs)]
+                        far = max(abs(n_ - e_) / math.sqrt(max(e_, 1.0)) for n_, e_ in zip(case["data"], start_exp))
+                        if xs[cfg.poi_index] == init[cfg.poi_index] and far > 50.0:
+                            # SLSQP returns the starting point itself, flagged successful, when the start lies this far
+                            # from the data (recorded finding, its own mechanism)
+                            name = "C05/slsqp-stalls-at-a-start-far-from-the-data"
+                            shard.maximum("largest_start_tension_of_a_stalled_fit", far)
                     if opt == "minuit" and kind == "counting":
                         lo_b, hi_b = case["poi_bounds"]
                         near = min(abs(ref_x[0] - lo_b), abs(ref_x[0] - hi_b)) < 0.1 * (hi_b - lo_b)
@@ -343,6 +351,8 @@ def check_closed_form(case, shard, mon, rng):
                     shard.ok("closed_form")
                     shard.maximum(f"closed_form_gap_{opt}", fun - ref_fun)
     set_opt("scipy")
+    if case.get("signal_scale"):
+        shard.covered("starts", f"default start mu=1 with the signal scaled by {case['signal_scale']:g} (hundreds of sigma from the data)")
     at_bound = kind == "counting" and (abs(ref_x[0] - case["poi_bounds"][0]) < 1e-9 or abs(ref_x[0] - case["poi_bounds"][1]) < 1e-9)
     if at_bound:
         shard.covered("optimum", "closed form on a bound")
@@ -491,7 +501,7 @@ def make_generated(rng, optimizers):
     else:  # datasets drawn around the model expectation (the property's domain); large deficits make the
         # interpolated likelihood multi-modal (MINUIT found a local minimum 19.6 above the global one on a 0.7x deficit)
         data = [float(gen.poisson_draw(rng, x)) for x in rates]
-    mask = rng.choice(["none", "nuisance", "poi", "poi", "release"])
+    mask = rng.choice(["none", "nuisance", "poi", "poi", "release", "both"])
     poi_val = rng.choice([0.0, 0.0, 1.0, 2.5, 10.0, gen._round(rng.uniform(0, 5), 2)])
     if mask == "release":
         scal = [n for n in model.config.par_order if n != "mu" and model.config.param_set(n).n_parameters == 1]
@@ -513,7 +523,19 @@ def make_closed(rng, optimizers):
             data = [gen._round(truth * s + b, 3) for s, b in zip(ss, bs)]
         minratio = min(b / s for s, b in zip(ss, bs))
         lo = rng.choice([0.0, 0.0, -gen._round(min(0.5 * minratio, 3.0), 2)])
-        return {"kind": "counting", "spec": spec, "data": data, "poi_bounds": [lo, 10.0], "optimizers": optimizers, "release": rng.random() < 0.25}
+        case = {"kind": "counting", "spec": spec, "data": data, "poi_bounds": [lo, 10.0], "optimizers": optimizers, "release": rng.random() < 0.25}
+        if rng.random() < 0.1:
+            # a signal normalised to a large cross-section: the default starting value mu=1 is hundreds of standard
+            # deviations away from data that sit near the background expectation
+            k = rng.choice([1000.0, 3000.0, 10000.0])
+            for ch in spec["channels"]:
+                ch["samples"][0]["data"] = [gen._round(v * k, 2) for v in ch["samples"][0]["data"]]
+            ss, bs = c06.counting_arrays(spec)
+            t = rng.choice([0.0, 0.5, 2.0]) / k
+            case["data"] = [float(gen.poisson_draw(rng, t * s + b)) for s, b in zip(ss, bs)]
+            case["poi_bounds"] = [0.0, 10.0]
+            case["signal_scale"] = k
+        return case
     nb = rng.randint(1, 4)
     nom = [gen._round(rng.uniform(10, 80), 2) for _ in range(nb)]
     spec = {"channels": [{"name": "c", "samples": [{"name": "bkg", "data": nom, "modifiers": [{"name": "shape", "type": "shapefactor", "data": None}]}]}]}
